@@ -169,6 +169,24 @@ def check_state(job):
                     yn = repr(e)[:120]
                 if not okn:
                     out.append((["C07"], "interpolate_value", "interpolate with width=%r, param=%r (NumPy scalars) differs from the documented kernel sum / raised: %s" % (wn, pn, str(yn)[:120])))
+        # a single coordinate given without a point axis (coord.shape == (ndim,), "[..., ndim]" with an empty "..."), with and
+        # without a batch axis: interpolate returns the batch shape, gridding takes an input of the batch shape
+        if par == params[0]:
+            cb = np.array(pt, dtype=np.float64)
+            for bshape in ((), (2,)):
+                gbare = rs.randn(*bshape, *grid) + 1j * rs.randn(*bshape, *grid)
+                try:
+                    yb0 = sp.interpolate(gbare, cb, kernel=kern, width=tuple(widths), param=tuple([par] * nd))
+                    exb0 = gbare.reshape(bshape + (-1,)) @ W1[0]
+                    if np.shape(yb0) != bshape or not np.allclose(yb0, exb0, atol=tol * max(1.0, float(np.abs(gbare).max() * np.abs(W1).sum())), rtol=0):
+                        out.append((["C07"], "interpolate_value", "interpolate with a bare (ndim,) coordinate and batch shape %s differs from the kernel sum" % (bshape,)))
+                    vb = np.asarray(rs.randn(*bshape) + 1j * rs.randn(*bshape))
+                    gg0 = sp.gridding(vb, cb, list(bshape) + list(grid), kernel=kern, width=tuple(widths), param=tuple([par] * nd))
+                    exg0 = (vb.reshape(bshape + (1,)) * W1[0]).reshape(bshape + tuple(grid))
+                    if np.shape(gg0) != bshape + tuple(grid) or not np.allclose(gg0, exg0, atol=tol * max(1.0, float(np.abs(vb).max() * np.abs(W1).max())), rtol=0):
+                        out.append((["C07"], "gridding_value", "gridding with a bare (ndim,) coordinate and batch shape %s is not the transpose of the kernel sum" % (bshape,)))
+                except Exception as e:
+                    out.append((["C07"], "exception", "a bare (ndim,) coordinate with batch shape %s raised %r" % (bshape, e)))
         # batch axis
         gb = rs.randn(2, *grid) + 1j * rs.randn(2, *grid)
         yb = sp.interpolate(gb, coord, kernel=kern, width=tuple(widths), param=tuple([par] * nd))
